@@ -439,7 +439,13 @@ impl RenderTableRow {
             };
             // Skip any zero-width columns
             if col_width > 0 {
-                cell.col_width = Some(col_width + cell.colspan - 1);
+                // Side by side, the cell also covers the separators between
+                // the columns it spans; stacked cells just get the full width.
+                cell.col_width = Some(if vertical {
+                    col_width
+                } else {
+                    col_width + cell.colspan - 1
+                });
                 let style = cell.style.clone();
                 result.push(RenderNode::new_styled(
                     RenderNodeInfo::TableCell(cell),
